@@ -460,7 +460,8 @@ CLAIMED["C08"] = dict(
        "Observed on every recorded problem: J v against central differences "
        "of the synthetic data (1e-4), Re<w, J v> = <J^T w, v> for complex w "
        "(1e-6) in both gridding modes, jtvec(weighted residual) = gradient "
-       "(1e-7), cached gradient untouched by jtvec.",
+       "(1e-7), cached gradient untouched by jtvec; adjointness also with "
+       "automatic grids per source and frequency (gridding='both').",
   note="Trusted: TLC, the stubs, tolerances; gridding modes 'same' and "
        "'input' only, in-memory, 8^3 grids.",
   ref="DESIGN.md section 5 (C07/C08)", engine="tlc-senspipe")
